@@ -728,8 +728,12 @@ where
         self: &'a mut Pin<&mut Self>,
         cx: &mut Context<'_>,
     ) -> Poll<Option<Result<(), C::Error>>> {
-        while self.channel_pin_mut().poll_ready(cx)?.is_pending() {
+        if self.channel_pin_mut().poll_ready(cx)?.is_pending() {
             ready!(self.channel_pin_mut().poll_flush(cx)?);
+            // A completed flush does not imply readiness for every transport (a bounded-queue
+            // sink can flush trivially while still full), so check readiness once more and wait
+            // to be woken by the transport rather than retrying within this poll.
+            ready!(self.channel_pin_mut().poll_ready(cx)?);
         }
         Poll::Ready(Some(Ok(())))
     }
